@@ -328,7 +328,7 @@ func C08() *runner.Property {
 			if c.Family == "receiver" {
 				return runC08Receiver(c, env)
 			}
-			if c.Family == "sync" {
+			if c.Family == "sync" || c.Family == "sync-own" {
 				return runC08Sync(c, env)
 			}
 			return runC08(c, env)
